@@ -1,7 +1,8 @@
 (** C05 — Indicator raw values equal the documented formulas (theorems added per indicator). *)
 From Yata Require Import Base.Prelude Base.Num Base.NumR Core.Window Core.Candle Core.Action
-  Spec.Hist Spec.MethodDefs Spec.IndicatorDefs Methods.Basic Methods.Select Indicators.Common Indicators.Set1
-  Proofs.IndicatorProofs.
+  Spec.Hist Spec.MethodDefs Spec.IndicatorDefs Methods.Basic Methods.Select Indicators.Common Indicators.Set1 Indicators.Set2 Indicators.Set3
+  Proofs.IndicatorProofs Proofs.IndicatorProofs2 Proofs.IndicatorProofs3 Proofs.IndicatorProofs4 Proofs.IndicatorProofs5 Proofs.IndicatorProofs6 Proofs.IndicatorProofs7 Proofs.IndicatorProofs8 Proofs.MAProofs.
+From Coq Require Import Reals.
 Open Scope Z_scope.
 
 Section C05.
@@ -13,4 +14,95 @@ Theorem C05_momentum_index p1 p2 src (c0 : C) cs c : 1 <= p2 -> p2 < p1 <= pmax 
   exists s0, momi_init p1 p2 src c0 = Ok s0 /\
     fst (snd (momi_next (steps momi_next s0 cs) c)) = momi_values p1 p2 src c0 (rev (cs ++ [c])).
 Proof. exact (momi_values_correct p1 p2 src c0 cs c). Qed.
+
+(** the MA constructor: 13 of its 15 kinds (all but SMM, Vidya) return the kind's definition at every step *)
+Theorem C05_ma_constructor (c : ma_cfg) (v : @F NumR) xs x : ma_proved c = true -> ma_len_ok c ->
+  exists s0, ma_init c v = Ok s0 /\ snd (ma_next (steps ma_next s0 xs) x) = ma_def c v (rev (xs ++ [x])).
+Proof. exact (ma_correct c v xs x). Qed.
+Theorem C05_donchian_channel n (c0 : C) cs c : 2 <= n <= pmax - 1 ->
+  exists s0, donch_init n c0 = Ok s0 /\
+    fst (snd (donch_next (steps donch_next s0 cs) c)) = donch_values n c0 (rev (cs ++ [c])).
+Proof. exact (donchian_values_correct n c0 cs c). Qed.
+Theorem C05_price_channel n (sigma : @F NumR) (c0 : C) cs c : 2 <= n <= pmax - 1 -> (0 < sigma <= 1)%R ->
+  exists s0, pch_init n sigma c0 = Ok s0 /\
+    fst (snd (pch_next (steps pch_next s0 cs) c)) = pch_values n sigma c0 (rev (cs ++ [c])).
+Proof. exact (price_channel_values_correct n sigma c0 cs c). Qed.
+Theorem C05_aroon n zone ozp (c0 : C) cs c : aroon_validate n zone ozp = true ->
+  exists s0, aroon_init n zone ozp c0 = Ok s0 /\
+    fst (snd (aroon_next (steps aroon_next s0 cs) c)) = aroon_values n c0 (rev (cs ++ [c])).
+Proof. exact (aroon_values_correct n zone ozp c0 cs c). Qed.
+Theorem C05_envelopes (cfg : env_cfg (N := NumR)) (c0 : C) cs c :
+  env_validate cfg = true -> ma_proved (ec_ma cfg) = true -> ma_len_ok (ec_ma cfg) ->
+  exists s0, env_init cfg c0 = Ok s0 /\
+    fst (snd (env_next (steps env_next s0 cs) c)) =
+    env_values (ec_ma cfg) (ec_k cfg) (ec_source cfg) (ec_source2 cfg) c0 (rev (cs ++ [c])).
+Proof. exact (envelopes_values_correct cfg c0 cs c). Qed.
+Theorem C05_bollinger_bands (cfg : boll_cfg (N := NumR)) (c0 : C) cs c : boll_validate cfg = true ->
+  exists s0, boll_init cfg c0 = Ok s0 /\
+    fst (snd (boll_next (steps boll_next s0 cs) c)) =
+    boll_values (bc_avg cfg) (bc_sigma cfg) (bc_source cfg) c0 (rev (cs ++ [c])).
+Proof. exact (bollinger_values_correct cfg c0 cs c). Qed.
+(** MACD: both lines; the signal line is the average of the SERIES of differences (a cascade) *)
+Theorem C05_macd (cfg : macd_cfg) (c0 : C) cs c : macd_validate cfg = true ->
+  ma_proved (mc_ma1 cfg) = true -> ma_len_ok (mc_ma1 cfg) -> ma_proved (mc_ma2 cfg) = true -> ma_len_ok (mc_ma2 cfg) ->
+  ma_proved (mc_signal cfg) = true -> ma_len_ok (mc_signal cfg) ->
+  exists s0, macd_init (N := NumR) cfg c0 = Ok s0 /\
+    fst (snd (macd_next (steps macd_next s0 cs) c)) =
+    macd_values (mc_ma1 cfg) (mc_ma2 cfg) (mc_signal cfg) (mc_source cfg) c0 (rev (cs ++ [c])).
+Proof. exact (macd_values_correct cfg c0 cs c). Qed.
+Theorem C05_detrended_price_oscillator (ma : ma_cfg) src (c0 : C) cs c :
+  1 < ma_period ma < pmax -> ma_proved ma = true -> ma_len_ok ma ->
+  exists s0, dpo_init ma src c0 = Ok s0 /\
+    fst (snd (dpo_next (steps dpo_next s0 cs) c)) = dpo_values ma src c0 (rev (cs ++ [c])).
+Proof. exact (dpo_values_correct ma src c0 cs c). Qed.
+(** TrueStrengthIndex: the TSI line and the EMA of the series of TSI values *)
+Theorem C05_true_strength_index p1 p2 p3 zone src (c0 : C) cs c : tsii_validate p1 p2 p3 zone = true ->
+  exists s0, tsii_init p1 p2 p3 zone src c0 = Ok s0 /\
+    fst (snd (tsii_next (steps tsii_next s0 cs) c)) = tsii_values p1 p2 p3 src c0 (rev (cs ++ [c])).
+Proof. exact (tsii_values_correct p1 p2 p3 zone src c0 cs c). Qed.
+Theorem C05_keltner_channel (ma : ma_cfg) (sigma : @F NumR) src (c0 : C) cs c :
+  1 < ma_period ma <= pmax - 1 -> (0 < sigma)%R -> ma_proved ma = true -> ma_len_ok ma ->
+  exists s0, kelt_init ma sigma src c0 = Ok s0 /\
+    fst (snd (kelt_next (steps kelt_next s0 cs) c)) = kelt_values ma sigma src c0 (rev (cs ++ [c])).
+Proof. exact (keltner_values_correct ma sigma src c0 cs c). Qed.
+(** StochasticOscillator: raw %K from the extremes of the window, smoothed twice (two-level cascade) *)
+Theorem C05_stochastic_oscillator (cfg : sto_cfg (N := NumR)) (c0 : C) cs c : sto_validate cfg = true ->
+  sc_period cfg <= pmax - 1 ->
+  ma_proved (sc_ma cfg) = true -> ma_len_ok (sc_ma cfg) -> ma_proved (sc_signal cfg) = true -> ma_len_ok (sc_signal cfg) ->
+  exists s0, sto_init cfg c0 = Ok s0 /\
+    fst (snd (sto_next (steps sto_next s0 cs) c)) =
+    sto_values (sc_period cfg) (sc_ma cfg) (sc_signal cfg) c0 (rev (cs ++ [c])).
+Proof. exact (stochastic_values_correct cfg c0 cs c). Qed.
+Theorem C05_relative_strength_index (cfg : rsi_cfg (N := NumR)) (c0 : C) cs c : rsi_validate cfg = true ->
+  ma_proved (rc_ma cfg) = true -> ma_len_ok (rc_ma cfg) ->
+  exists s0, rsi_init cfg c0 = Ok s0 /\
+    fst (snd (rsi_next (steps rsi_next s0 cs) c)) = rsi_values (rc_ma cfg) (rc_source cfg) c0 (rev (cs ++ [c])).
+Proof. exact (rsi_values_correct cfg c0 cs c). Qed.
+Theorem C05_commodity_channel_index period (zone : @F NumR) src (c0 : C) cs c : (0 <= zone)%R -> 1 < period < pmax ->
+  exists s0, ccii_init period zone src c0 = Ok s0 /\
+    fst (snd (ccii_next (steps ccii_next s0 cs) c)) = ccii_values period src c0 (rev (cs ++ [c])).
+Proof. exact (cci_indicator_values_correct period zone src c0 cs c). Qed.
+Theorem C05_chaikin_money_flow size (c0 : C) cs c : 1 < size < pmax ->
+  exists s0, cmf_init size c0 = Ok s0 /\
+    fst (snd (cmf_next (steps cmf_next s0 cs) c)) = cmf_values size c0 (rev (cs ++ [c])).
+Proof. exact (cmf_values_correct size c0 cs c). Qed.
+Theorem C05_chande_momentum_oscillator period zone src (c0 : C) cs c : cmo_validate period zone = true ->
+  exists s0, cmo_init period zone src c0 = Ok s0 /\
+    fst (snd (cmo_next (steps cmo_next s0 cs) c)) = cmo_values period src c0 (rev (cs ++ [c])).
+Proof. exact (cmo_values_correct period zone src c0 cs c). Qed.
+Theorem C05_money_flow_index period zone (c0 : C) cs c : mfi_validate period zone = true ->
+  exists s0, mfi_init period zone c0 = Ok s0 /\
+    fst (snd (mfi_next (steps mfi_next s0 cs) c)) = mfi_values period zone c0 (rev (cs ++ [c])).
+Proof. exact (mfi_values_correct period zone c0 cs c). Qed.
+(** Trix: one-step change of the triple EMA and the average of the series of those changes (three-level cascade) *)
+Theorem C05_trix p1 (signal : ma_cfg) src (c0 : C) cs c :
+  2 < p1 <= pmax - 1 -> 1 < ma_period signal -> ma_proved signal = true -> ma_len_ok signal -> 4 <= pmax ->
+  exists s0, trix_init p1 signal src c0 = Ok s0 /\
+    fst (snd (trix_next (steps trix_next s0 cs) c)) = trix_values p1 signal src c0 (rev (cs ++ [c])).
+Proof. exact (trix_values_correct p1 signal src c0 cs c). Qed.
+Theorem C05_elders_force_index (ma : ma_cfg) p2 src (c0 : C) cs c :
+  1 < ma_period ma -> 1 <= p2 < pmax -> ma_proved ma = true -> ma_len_ok ma ->
+  exists s0, efi_init ma p2 src c0 = Ok s0 /\
+    fst (snd (efi_next (steps efi_next s0 cs) c)) = efi_values ma p2 src c0 (rev (cs ++ [c])).
+Proof. exact (efi_values_correct ma p2 src c0 cs c). Qed.
 End C05.
